@@ -23,7 +23,31 @@ EXC_TYPES = {
     "PermissionError": PermissionError,
     "FileNotFoundError": FileNotFoundError,
     "AssertionError": AssertionError,
+    "TimeoutError": TimeoutError,
+    "StopIteration": StopIteration,          # inside a coroutine this surfaces as RuntimeError
+    "StopAsyncIteration": StopAsyncIteration,
+    "RecursionError": RecursionError,
+    "MemoryError": MemoryError,
+    "CancelledError": None,                  # filled in below: asyncio.CancelledError (a BaseException)
+    "StrRaises": None,                       # an exception whose __str__ itself raises
+    "ExceptionGroup": None,
 }
+
+
+class StrRaises(Exception):
+    def __str__(self):
+        raise RuntimeError("str() of the exception failed")
+
+
+def _fill():
+    import asyncio
+
+    EXC_TYPES["CancelledError"] = asyncio.CancelledError
+    EXC_TYPES["StrRaises"] = StrRaises
+    EXC_TYPES["ExceptionGroup"] = lambda msg: ExceptionGroup(msg, [ValueError("inner\nline"), OSError(5, "io")])
+
+
+_fill()
 
 
 def make_exc(name: str, msg: str) -> Exception:
